@@ -830,6 +830,23 @@ pub fn drill_bankruptcy(sim: &mut Sim, ctx: &mut Ctx) -> Option<Tx> {
     let b = ctx.world.bank_info(&lb.bank_pk)?.clone();
     let bank = model::bank_of(&sim.store, &lb.bank_pk)?;
     let debt = liab_amount_u64(&bank, &lb);
+    // a Token-2022 mint with a scheduled fee change: settle exactly IN the epoch the newer fee
+    // becomes active (or one before / after) - the cover must be sized with the fee the token
+    // program really withholds in that epoch
+    if let fixtures::TokenKind::T22Fee { newer_epoch, .. } = b.kind {
+        let cur = sim.clock.epoch;
+        if newer_epoch > cur && ctx.rng.chance(3, 4) {
+            let target = match ctx.rng.below(4) {
+                0 => newer_epoch - 1,
+                1 => newer_epoch + 1,
+                _ => newer_epoch,
+            };
+            if target > cur {
+                sim.apply(Event::Advance { dt: 0, dslot: 1, depoch: target - cur });
+                sim.stats.fault("drill_bankruptcy_in_fee_activation_epoch");
+            }
+        }
+    }
     // insurance donation (anyone can send tokens to the vault)
     if let Some(mut v) = sim.store.get(&b.keys.insurance_vault).cloned() {
         let amt = match ctx.rng.below(5) {
